@@ -41,7 +41,9 @@
 //!   * ordered UDT whose ignored suffix contains the name of a declared (allow_missing) field;
 //!   * null delivered to a non-Option list field (the driver reads null collections as empty).
 //!   * an `Option` field holding `None` bound to a column of a different type (null is written without a type check);
-//!   * a database field list with a repeated name.
+//!   * a database field list with a repeated name (Unspecified) - except SerializeRow, where a named bind marker
+//!     may occur several times (`a = :x AND b = :x`): the documented rules still apply and, if the row is accepted,
+//!     every occurrence must carry the like-named field's value with no cell missing (verdict Either).
 //!
 //! Cell encoding (CQL v4 spec section 6): int/bigint big-endian two's complement, text UTF-8, boolean one byte,
 //! double IEEE-754 big-endian, list<int> = [i32 n] then n x [i32 len][bytes]. A UDT value / a row is a sequence
@@ -329,8 +331,11 @@ pub struct Binding {
     pub leaf_to_db: Vec<Option<usize>>,
     /// leaves bound to a database field of a different type
     pub mismatched: Vec<usize>,
-    /// the database list repeats a name (verdict stays Unspecified whatever else holds)
+    /// the database list repeats a name. Verdict stays Unspecified whatever else holds - except for
+    /// SerializeRow, where a named bind marker may legitimately occur several times (`a = :x AND b = :x`).
     pub repeated: bool,
+    /// per database position: the leaf that supplies it (by-name: every occurrence of a name)
+    pub db_to_leaf: Vec<Option<usize>>,
 }
 
 fn worst(cur: &mut (Verdict, &'static str), v: Verdict, why: &'static str) {
@@ -371,7 +376,8 @@ pub fn bind_names(m: &Model, db: &[DbField], target: Target, dir: Dir) -> Bindin
                     None => unbound(leaf, &mut res),
                 }
             }
-            let excess = db_used.iter().filter(|u| !**u).count();
+            // database positions whose name no active leaf carries (a repeated name is not excess)
+            let excess = db.iter().filter(|f| !active.iter().any(|&i| m.leaves[i].db_name == f.name)).count();
             if excess > 0 {
                 match (target, dir) {
                     (Target::Udt, _) => {
@@ -445,16 +451,39 @@ pub fn bind_names(m: &Model, db: &[DbField], target: Target, dir: Dir) -> Bindin
     }
     // a repeated database name: nothing is documented (by-name deserializers report a duplicate, by-name
     // serializers write the field twice) - only "no panic" is demanded
-    let repeated = (0..db.len()).any(|i| (0..i).any(|j| db[i].name == db[j].name));
-    if repeated {
+    let repeated_names = (0..db.len()).any(|i| (0..i).any(|j| db[i].name == db[j].name));
+    // who supplies each database position
+    let mut db_to_leaf: Vec<Option<usize>> = vec![None; db.len()];
+    for (i, j) in leaf_to_db.iter().enumerate() {
+        if let Some(j) = j {
+            db_to_leaf[*j] = Some(i);
+        }
+    }
+    let row_ser = target == Target::Row && dir == Dir::Ser;
+    let mut repeated = repeated_names;
+    if repeated_names && row_ser {
+        // SerializeRow with a bind marker that occurs more than once. The documentation does not mention the
+        // case; what it does say still applies (every column needs a struct field and vice versa, ordered
+        // flavours compare position by position), and in the by-name flavour every occurrence of a name is a
+        // column of its own that the like-named field has to fill. Success itself is not promised: Either.
+        repeated = false;
+        if m.flavor == Flavor::ByName {
+            for (j, f) in db.iter().enumerate() {
+                db_to_leaf[j] = active.iter().copied().find(|&i| m.leaves[i].db_name == f.name);
+            }
+            worst(&mut res, Verdict::Either, "repeated-bind-marker-undocumented");
+        }
+    } else if repeated_names {
         res = (Verdict::Unspecified, "repeated-db-name-undocumented");
     }
-    let mismatched: Vec<usize> = leaf_to_db
+    let mut mismatched: Vec<usize> = db_to_leaf
         .iter()
         .enumerate()
-        .filter_map(|(i, j)| j.filter(|j| db[*j].kind != m.leaves[i].kind).map(|_| i))
+        .filter_map(|(j, i)| i.filter(|i| db[j].kind != m.leaves[*i].kind))
         .collect();
-    Binding { verdict: res.0, reason: res.1, leaf_to_db, mismatched, repeated }
+    mismatched.sort_unstable();
+    mismatched.dedup();
+    Binding { verdict: res.0, reason: res.1, leaf_to_db, mismatched, repeated, db_to_leaf }
 }
 
 /// Names/order/count verdict combined with the static type check of every bound pair
@@ -517,8 +546,8 @@ pub fn expect_ser(m: &Model, vals: &[Val], db: &[DbField], target: Target) -> Se
     let mut cells: Vec<Option<Vec<u8>>> = vec![None; db.len()];
     let mut min_cells = 0usize;
     let mut res = (b.verdict, b.reason);
-    for (i, j) in b.leaf_to_db.iter().enumerate() {
-        if let Some(j) = *j {
+    for (j, i) in b.db_to_leaf.iter().enumerate() {
+        if let Some(i) = *i {
             min_cells = min_cells.max(j + 1);
             match (&m.leaves[i].nested, &vals[i]) {
                 (Some(nm), Val::Udt(inner_vals)) if db[j].kind == Kind::Udt => {
